@@ -89,7 +89,7 @@ CHECK = LineCheck("C19", ["SimVerif.Props.C19"], "h_pcap", ["h_pcap.cpp"], "pcap
 from props.common import ScenarioCheck
 from specs import pcap_trace
 import net_gen, tcp_stream_gen
-import vlib, time
+import vlib, time, os
 
 def gen2(seed, tier):
     n = 250 if tier == "quick" else 6000
@@ -112,6 +112,9 @@ SIM = ScenarioCheck("C19", ["SimVerif.Props.C19"], "kernel", gen2, pcap_trace.ch
 def run(tier, seed, replay):
     if replay:
         return (SIM if replay.endswith(".scn") else CHECK).run(tier, seed, replay)
+    if os.environ.get("VERIF_DUMP_SCN"):
+        # tools/coverage.py: stage 1 has no scenarios (it drives h_pcap); stage 2 returns right after its dump
+        return SIM.run(tier, seed, None, write=False)
     t0 = time.time()
     rc1 = CHECK.run(tier, seed, None, write=False)
     cov1, v1, _ = CHECK.last
